@@ -119,8 +119,8 @@ structure Step where
   kleene : Bool := false
   deriving Repr, Inhabited
 
-def modifyAt (l : List State) (i : Nat) (f : State → State) : List State :=
-  l.mapIdx fun j s => if j = i then f s else s
+/-- `states.get_mut(i)` followed by an update: nothing happens when `i` is out of range -/
+def modifyAt (l : List State) (i : Nat) (f : State → State) : List State := l.modify i f
 
 /-- `Nfa::add_state` -/
 def Nfa.addState (n : Nfa) (s : State) : Nfa × Nat := ({ n with states := n.states ++ [s] }, n.states.length)
@@ -239,13 +239,16 @@ def evalDeferred (p : Pred) (cap : Cap) : List Ev → Bool
       evalPred p cur (cap.setOpt (extractRefAlias p) prev) && evalDeferred p cap (cur :: rest)
   | _ => true
 
+/-- `StackEntry { event: self.events[idx], alias: self.aliases[idx] }` (`none` = index out of bounds = panic) -/
+def KCap.entry? (k : KCap) (i : Nat) : Option Entry :=
+  match k.events[i]?, k.aliases[i]? with
+  | some e, some a => some ⟨e, a⟩
+  | _, _ => none
+
 /-- `iter_combinations`: the index sets in ZDD iteration order with their stack entries
 (`self.events[idx]`, `self.aliases[idx]`: `none` = index out of bounds = panic) -/
 def KCap.combos (k : KCap) : Option (List (List Nat × List Entry)) :=
-  (sets k.handle).mapM fun s =>
-    (s.mapM fun i => match k.events[i]?, k.aliases[i]? with
-      | some e, some a => some (⟨e, a⟩ : Entry)
-      | _, _ => none).map fun es => (s, es)
+  (sets k.handle).mapM fun s => (s.mapM k.entry?).map fun es => (s, es)
 
 /-- the match built for one accepted combination -/
 def mkEnumMatch (r : Run) (k : KCap) (c : List Nat × List Entry) : Match :=
@@ -315,17 +318,19 @@ def tryEpsTargets (nfa : Nfa) (lim : Limits) (r : Run) (e : Ev) : List Nat → O
       else tryEpsTargets nfa lim r e rest
 
 /-- the `for &eps_id in &current_state.epsilon_transitions` loop: an `Accept` target completes the run
-without consuming the event -/
-def tryEps (nfa : Nfa) (lim : Limits) (r : Run) (e : Ev) : List Nat → Option Adv
+without consuming the event — unless the current state is a trailing Kleene state (`skipAccept`), which has
+already reported the closure on every accumulated event (repair `fix: … trailing all …`). -/
+def tryEps (nfa : Nfa) (lim : Limits) (r : Run) (e : Ev) (skipAccept : Bool) : List Nat → Option Adv
   | [] => none
   | ep :: rest =>
     match nfa.states[ep]? with
     | none => some .panic
     | some es =>
-      if es.ty = .accept then some (completeRun r lim)
+      if es.ty = .accept then
+        if skipAccept then tryEps nfa lim r e skipAccept rest else some (completeRun r lim)
       else match tryEpsTargets nfa lim r e es.trans with
         | some a => some a
-        | none => tryEps nfa lim r e rest
+        | none => tryEps nfa lim r e skipAccept rest
 
 /-- `advance_run_shared` (strategy `SkipTillAnyMatch`; the AND / Negation arms cannot be reached in the fragment) -/
 def advance (nfa : Nfa) (lim : Limits) (r : Run) (e : Ev) : Adv :=
@@ -346,7 +351,7 @@ def advance (nfa : Nfa) (lim : Limits) (r : Run) (e : Ev) : Adv :=
       match tryTransitions nfa lim r e st.trans with
       | some a => a
       | none =>
-        match tryEps nfa lim r e st.eps with
+        match tryEps nfa lim r e (st.ty = .kleene && st.selfLoop && st.epsAccept) st.eps with
         | some a => a
         | none => .noMatch r
 
